@@ -191,12 +191,15 @@ def qr_backward_check(out, A64, Q0_64, u, C=64.0):
     return ok, first
 
 
-def stop_rule_check(out, A64, Q0_64, max_iter, tol, u, gen, C=256.0, n_probes=3):
+def stop_rule_check(out, A64, Q0_64, max_iter, tol, u, gen, C=256.0, n_probes=3, work_dtype=None):
     """QRConfig documents `tolerance` as a bound on the RELATIVE change ||Q_new - Q_old|| / ||Q_old|| of the estimate.
     J = iterations j at which the documented loop may stop: evaluated on the float64 reference AND on `n_probes` runs with
     emulated working-precision noise (inside near-degenerate clusters the iterates keep rotating under rounding noise, so the
     relative change is not reproducible across precisions), each with raw and with sign-aligned columns (Householder sign
     conventions), with a factor-1.5 band around the tolerance.
+    A further probe runs the documented loop in the WORKING dtype (`work_dtype`): Householder column signs follow the sign of
+    pivots that may be pure noise or underflowed zeros there (exactly diagonal inputs), which no float64 run reproduces; like
+    every probe it can only ADD admissible stopping iterations.
     M = iterations j whose (probe-stable, non-vacuous) reference iterate matches `out`.
     Returns (verdict, J, M) with verdict in {"ok", "vacuous", "violated"}."""
     n = A64.shape[0]
@@ -243,6 +246,12 @@ def stop_rule_check(out, A64, Q0_64, max_iter, tol, u, gen, C=256.0, n_probes=3)
         return J
 
     J = set()
+    if work_dtype is not None and work_dtype != D:
+        Aw, Qw, raw_w = A64.to(work_dtype), Q0_64.to(work_dtype), []
+        for j in range(1, max_iter + 1):
+            last, Qw = Qw, torch.linalg.qr(Aw @ Qw).Q
+            raw_w.append(float((last - Qw).norm() / last.norm()))
+        J |= stops(raw_w)
     for raw, al in rels:
         J |= stops(raw) | stops(al)
         J |= set(range(min(stops(al)), max(stops(raw)) + 1)) if stops(al) and stops(raw) else set()  # any mixture of flipped / unflipped columns
